@@ -62,13 +62,63 @@ def _r7_every_configured_suffix_is_routed(ctx):
                         shr.append("%s at %s" % (nme.rsplit("::", 1)[-1], P.rel(tm["sp"])))
         ctx.check(not shr, "R7", "suffix-and-route-lists-never-shrink:%s" % root.rsplit("::", 1)[-1], ctx.where(P.bodies[root]),
                   "no suffix or route may be removed after parsing: %s" % (shr or "ok"))
-    ctx.floor("R7", "route constructions in the loader", n, 2)
+    ctx.floor("R7", "route constructions in the loader", n, 1)
+
+
+def _r8_route_kind_is_the_configured_type(ctx):
+    """R8 what a route does is what its `type` says: a route written as forge-nxdomain is built as Handler::ForgeNxDomain whatever else the
+    entry carries (a left-over dns-servers list, say), and Handler::Forward is never built on the path where the type was read as
+    forge-nxdomain. Otherwise names the operator meant to block are sent upstream."""
+    P = ctx.P
+    adt = P.adt("erbium::dns::config::HandlerType")
+    if adt is None:
+        if ctx.config in ("default", "dns"):
+            ctx.bad("R8", "anchor", "", "dns::config::HandlerType not found")
+        return
+    vn = [v["name"] for v in adt["variants"]]
+    n = 0
+    for b in P.bodies.values():
+        if "dns::config::" not in b.id or "::test" in b.id:
+            continue
+        aggs = [(bb, idx, st) for _, bb, idx, st in find_aggs(P, "dns::config::Handler", [b])]
+        if not aggs:
+            continue
+        T = terms(P, b)
+        cfg = cfg_of(b)
+        forge_edges = []
+        for bb, tm in b.terms():
+            if tm["k"] != "switch":
+                continue
+            st = single_def_stmt(T, tm["discr"], bb, len(b.blocks[bb]["stmts"]))
+            if st is None or st["rv"]["k"] != "discr":
+                continue
+            pl = st["rv"]["place"]
+            if len(pl) < 2 or "HandlerType" not in b.local_ty(pl[0]):
+                continue
+            forge_edges += discr_edges(cfg, bb, vn.index("ForgeNxDomain"))
+        after_forge = set()
+        for (_, t) in forge_edges:
+            after_forge |= cfg.reachable_from(t)
+        for bb, idx, st in aggs:
+            n += 1
+            ctx.saw(b)
+            v = st["rv"].get("variant")
+            if v == "ForgeNxDomain":
+                ok = edge_dominated(cfg, forge_edges, bb)
+                why = "Handler::ForgeNxDomain must be built exactly where the configured type is forge-nxdomain"
+            else:
+                ok = bool(forge_edges) and bb not in after_forge
+                why = "Handler::%s is built on a path where the configured type was read as forge-nxdomain" % v
+            ctx.check(ok, "R8", "route-kind-is-the-configured-type:%s" % v, ctx.where(b, st["sp"]), why + " (%d type edge(s) found)" % len(forge_edges))
+    if ctx.config in ("default", "dns"):
+        ctx.floor("R8", "handler constructions in the loader", n, 2)
 
 
 def run(ctx):
     P = ctx.P
     cg = callgraph(P)
     _r7_every_configured_suffix_is_routed(ctx)
+    _r8_route_kind_is_the_configured_type(ctx)
     # "names under a forward route go only to that route's server": the cache sits under the router; an entry answers only the
     # question it was stored for (C06.R4), otherwise one route's answer is served for a name of another
     ctx.include("C06", rules=("R4",))
